@@ -244,7 +244,11 @@ func (e *Engine) Generate(r *core.Rand, prop string, tier string) core.Trace {
 	}
 	// drawn last, so that every other choice of the run is what it was before
 	// the tool tier existed: one run in 250 drives the real binary
-	if r.Chance(1, 250) {
+	every := 250
+	if tier == "thorough" {
+		every = 2500 // a child process costs as much as a few hundred in-process runs
+	}
+	if r.Chance(1, every) {
 		return &Trace{Seed: t.Seed, Tool: uisim.GenToolScenario(r)}
 	}
 	return t
